@@ -1254,6 +1254,11 @@ impl World for IovecWorld {
                             // independence.
                             if (matches!(op.k, "clone" | "take") || !target) && f.prop != "C20" {
                                 also.borrow_mut().push((i, Fail { prop: f.prop, inv: f.inv, detail: f.detail.clone() }));
+                                if op.k == "take" && f.prop != "C03" {
+                                    // take() is one of the pipe's own operations: what it hands
+                                    // over must still be the bytes appended, placeholders included.
+                                    also.borrow_mut().push((i, Fail { prop: "C03", inv: "C03.wrong_after_take", detail: f.detail.clone() }));
+                                }
                                 (i, Fail { prop: "C20", inv: if matches!(op.k, "clone" | "take") { "C20.wrong_after_clone_or_take" } else { "C20.sibling_changed" }, detail: format!("{} [{}]", f.detail, f.inv) })
                             } else {
                                 (i, f)
